@@ -14,7 +14,21 @@ use crate::system::{CommandLineOutput, CommandScript, System, SystemError};
 use crate::verif::shim::{self, SendObserver};
 use crate::verif::util::Rng;
 
-pub const RULER_DIR : &str = ".ruler";
+/*  The ruler directory of the current workspace.  Most workspaces use ".ruler"; some use a nested path, as
+    `ruler --directory meta/.ruler` allows.  One workspace is alive per process at a time (two identical ones in the
+    paired driver), so a process-wide setting is enough. */
+pub const RULER_DIRS : &[&str] = &[".ruler", "meta/.ruler", "out/.state"];
+static RULER_DIR_INDEX : std::sync::atomic::AtomicUsize = std::sync::atomic::AtomicUsize::new(0);
+
+pub fn ruler_dir() -> &'static str
+{
+    RULER_DIRS[RULER_DIR_INDEX.load(std::sync::atomic::Ordering::SeqCst) % RULER_DIRS.len()]
+}
+
+pub fn set_ruler_dir(index : usize)
+{
+    RULER_DIR_INDEX.store(index % RULER_DIRS.len(), std::sync::atomic::Ordering::SeqCst);
+}
 
 #[derive(Clone, Debug, PartialEq)]
 pub struct Inode
@@ -362,7 +376,7 @@ impl Fs
             Some(paths) =>
             {
                 let p = norm(path);
-                p == RULER_DIR || p.starts_with(&format!("{}/", RULER_DIR)) || paths.contains(&p)
+                p == ruler_dir() || p.starts_with(&format!("{}/", ruler_dir())) || paths.contains(&p)
             },
         };
         if !inside
@@ -432,7 +446,7 @@ impl Fs
                     self.before_mutation(&format!("rename {} -> {}", from, to));
                     if who == Who::Ruler && same == Some(false)
                     {
-                        let in_ruler_state = t == format!("{}/current_file_states", RULER_DIR) || t.starts_with(&format!("{}/history/", RULER_DIR));
+                        let in_ruler_state = t == format!("{}/current_file_states", ruler_dir()) || t.starts_with(&format!("{}/history/", ruler_dir()));
                         if !in_ruler_state
                         {
                             let seq = self.log.len();
@@ -783,7 +797,7 @@ impl System for VSys
             if let Some(ino) = existing
             {
                 let nonempty = fs.disk.inodes.get(&ino).map(|x| x.data.len() > 0).unwrap_or(false);
-                let in_ruler_state = p.starts_with(&format!("{}/", RULER_DIR)) && !p.starts_with(&format!("{}/cache/", RULER_DIR));
+                let in_ruler_state = p.starts_with(&format!("{}/", ruler_dir())) && !p.starts_with(&format!("{}/cache/", ruler_dir()));
                 if nonempty && !in_ruler_state
                 {
                     let seq = fs.log.len();
@@ -994,6 +1008,13 @@ impl System for VSys
                     {
                         property : "C04".to_string(),
                         what : format!("command of rule #{} ran although a prerequisite failed or is missing: {}", expect.rule_index, text),
+                        seq : seq,
+                    });
+                    // the same event seen from C03: a source whose producer failed is not final and correct
+                    fs.online.push(OnlineViolation
+                    {
+                        property : "C03".to_string(),
+                        what : format!("command of rule #{} started although one of its sources was not completely built (its producer failed, did not generate it, or a leaf is missing): {}", expect.rule_index, text),
                         seq : seq,
                     });
                 }
